@@ -27,7 +27,8 @@ ASSUMPTIONS = [
 ]
 BOUNDS = {
     "quick": {"threads": 2, "line_level_preemptions": 1, "critical_opcode_level_preemptions": 1},
-    "thorough": {"threads": "2 and 3", "line_level_preemptions": 2, "critical_opcode_level_preemptions": 2, "three_threads_preemptions": 1},
+    "thorough": {"threads": "2 and 3", "line_level_preemptions": "1, and 2 when the second one is in the bookkeeping functions (4 scenarios)",
+                 "critical_opcode_level_preemptions": 1, "three_threads_preemptions": 1},
 }
 
 SRC = '''
@@ -342,8 +343,18 @@ def warm(scenario):
 
 CONFIGS = {
     "quick": [("lines", False, 1), ("critical", True, 1)],
-    "thorough": [("lines", False, 2), ("critical", True, 2)],
+    "thorough": [("lines", False, 1), ("critical", True, 1)],
 }
+# thorough: a second preemption is allowed at the lines of the bookkeeping functions (counters, variant
+# table, code swap) in the scenarios that race on them
+REGION_NAMES = {"_tooler", "_untooler", "push", "pop", "get", "_apply", "transform_for", "_register"}
+REGION_SCENARIOS = {"same-variable", "different-variables", "disjoint-functions", "fifo-and-other-function"}
+
+
+def region_for(scenario, critical, tier):
+    if tier == "thorough" and not critical and scenario in REGION_SCENARIOS:
+        return (lambda loc: isinstance(loc, tuple) and loc[0] in REGION_NAMES), 2
+    return None, None
 
 
 def units(tier):
@@ -353,15 +364,16 @@ def units(tier):
         if three and tier == "quick":
             continue
         for cname, critical, bound in CONFIGS[tier]:
-            if critical and tier == "quick" and scenario not in ("same-variable", "different-variables", "disjoint-functions"):
-                continue  # bytecode granularity on the scenarios that race on the counters / code swap
+            if critical and scenario not in ("same-variable", "different-variables", "disjoint-functions") and (tier == "quick" or three):
+                continue  # quick: bytecode granularity on the scenarios that race on the counters / code swap
             if three:
                 bound = 1
             warm(scenario)
             x, _ = execute(scenario, [], critical)
             # shard by the position of the first deviation from the default schedule
-            alts = S.alternatives(x, 0, bound)
-            chunk = max(1, len(alts) // 48 + 1)
+            region, rbound = region_for(scenario, critical, tier)
+            alts = S.alternatives(x, 0, bound, region, rbound)
+            chunk = max(1, len(alts) // (48 if region is None else 480) + 1)
             for lo in range(0, len(alts), chunk):
                 out.append(("explore", scenario, critical, bound, lo, lo + chunk))
             out.append(("default", scenario, critical, bound))
@@ -372,8 +384,12 @@ def sig(x):
     return tuple((p[0], p[3]) for p in x.points if p[0] != p[3])
 
 
+_TIER = ["quick"]
+
+
 def explore(scenario, critical, bound, prefix, part, seen):
     """DFS below `prefix` (which already contains its deviation)."""
+    region, rbound = region_for(scenario, critical, _TIER[0])
     x, probs = execute(scenario, prefix, critical)
     part["evaluations"] += 1
     part["steps"] += len(x.points)
@@ -394,9 +410,9 @@ def explore(scenario, critical, bound, prefix, part, seen):
             f"{scenario}: " + "; ".join(probs)[:600] + f" | context switches (point, from, to, at): {sched_desc[:6]!r}",
             tags=["scenario:" + scenario]))
         return
-    if x.preemptions_before(len(x.points)) >= bound:
+    if x.preemptions_before(len(x.points)) >= max(bound, rbound or 0):
         return
-    for alt in S.alternatives(x, len(prefix), bound):
+    for alt in S.alternatives(x, len(prefix), bound, region, rbound):
         if part["counters"]["hangs"] >= 2:
             return  # every further schedule of this unit would wait for the same hang
         explore(scenario, critical, bound, alt, part, seen)
@@ -405,6 +421,7 @@ def explore(scenario, critical, bound, prefix, part, seen):
 def work(unit, tier):
     part = new_partial()
     sys.setswitchinterval(1e-3)
+    _TIER[0] = tier
     kind, scenario, critical, bound = unit[:4]
     warm(scenario)
     seen = set()
@@ -428,7 +445,8 @@ def work(unit, tier):
         return part
     lo, hi = unit[4], unit[5]
     x, _ = execute(scenario, [], critical)
-    for alt in S.alternatives(x, 0, bound)[lo:hi]:
+    region, rbound = region_for(scenario, critical, tier)
+    for alt in S.alternatives(x, 0, bound, region, rbound)[lo:hi]:
         if part["counters"]["hangs"] >= 2:
             break
         explore(scenario, critical, bound, alt, part, seen)
